@@ -312,7 +312,7 @@ class RedlineEngine:
                 if s_name:
                     self._set_paragraph_style(new_p, s_name)
                 elif current_p.pPr is not None:
-                    new_p.append(deepcopy(current_p.pPr))
+                    new_p.append(self._copy_paragraph_properties(current_p.pPr))
 
                 new_ins = self._create_track_change_tag("w:ins")
 
@@ -385,7 +385,7 @@ class RedlineEngine:
                 if style_name:
                     self._set_paragraph_style(new_p, style_name)
                 elif current_p_element.pPr is not None:
-                    new_p.append(deepcopy(current_p_element.pPr))
+                    new_p.append(self._copy_paragraph_properties(current_p_element.pPr))
 
                 new_ins = self._create_track_change_tag("w:ins")
 
@@ -415,6 +415,23 @@ class RedlineEngine:
                     self._attach_comment_spanning(start_p, start_ins, end_p, end_ins, comment)
 
         return ins_elem
+
+    @staticmethod
+    def _copy_paragraph_properties(pPr):
+        """
+        Properties for a new paragraph modelled on an existing one. A tracked change of the
+        original's paragraph mark (w:rPr/w:ins, w:rPr/w:del ...) is that paragraph's own revision:
+        copying it would duplicate its id.
+        """
+        new_pPr = deepcopy(pPr)
+        rPr = new_pPr.find(qn("w:rPr"))
+        if rPr is not None:
+            for tag in ("w:ins", "w:del", "w:moveFrom", "w:moveTo"):
+                for mark in rPr.findall(qn(tag)):
+                    rPr.remove(mark)
+            if len(rPr) == 0 and not rPr.attrib:
+                new_pPr.remove(rPr)
+        return new_pPr
 
     @staticmethod
     def _enclosing_paragraph(element):
